@@ -29,14 +29,26 @@ SVC = 'org.verif.Service'
 TEXTS = {'plain': 'it broke', 'unicode': 'käput €', 'empty': ''}
 
 
+class _Holder:
+    class NestedFailure(Exception):
+        pass
+
+
 def _exc(kind):
     if kind == 'named':
         return type('NamedFailure', (Exception,), {'dbusErrorName': 'org.verif.Error.Named'})
+    if kind == 'nested':
+        return _Holder.NestedFailure       # its qualified name differs from its name
+    if kind == 'local':
+        class LocalFailure(Exception):     # defined in a function: '<locals>' in the qualified name
+            pass
+        return LocalFailure
     return type('VerifFailure', (Exception,), {})
 
 
 def _errname(kind):
-    return 'org.verif.Error.Named' if kind == 'named' else 'org.txdbus.PythonException.VerifFailure'
+    return {'named': 'org.verif.Error.Named', 'nested': 'org.txdbus.PythonException.NestedFailure',
+            'local': 'org.txdbus.PythonException.LocalFailure'}.get(kind, 'org.txdbus.PythonException.VerifFailure')
 
 
 def _convention(sig, trees):
@@ -342,7 +354,7 @@ def scenario(draw, tier, dfs=False):
         oc = {'kind': kind, 'trees': [draw(S.tree_for(t, 2)) for t in R.split_inner(spec['out'])],
               'pres': draw(S.presentation), 'as_tuple': draw(st.booleans())}
         if kind in ('raise', 'deferred-fail'):
-            oc['exc'] = draw(st.sampled_from(['plain', 'named']))
+            oc['exc'] = draw(st.sampled_from(['plain', 'named', 'nested', 'local']))
             oc['text'] = draw(st.sampled_from(['plain', 'unicode', 'empty']))
         calls.append({'caller': draw(st.integers(0, 3)), 'method': mi,
                       'trees': [draw(S.tree_for(t, 2)) for t in R.split_inner(spec['in'])],
